@@ -132,7 +132,7 @@ static void check_cbs(const char *what, int n)
 		/* litmus: callback effect visible to a section that did not see the pre-call store */
 		VRT_CHECK(!(vrt_note_get(N_R(0)) == 0 && vrt_note_get(N_R(1 + i)) == 1),
 			  "%s: reader saw callback %d's store (y=1) but not the store made before call_rcu (x=0)", what, i);
-		for (t = 1; t < VRT_MAX_THREADS; t++) {
+		for (t = 1; t < 8; t++) {
 			unsigned long sb = vrt_note_get(N_SECB(t)), se = vrt_note_get(N_SECE(t));
 
 			if (!se)
